@@ -58,6 +58,12 @@ claim('C03', 'reference-model monitor on Panel.calc_kG0 (analytic and state-base
       'the oracle at every integration point (NLgeom on/off, orders 2..64, uniform vs per-point table, uniform-membrane states reproducing the constant-load matrix).',
       'Panel.uvw / Panel.strain recovery kernels (judged by C11); numpy leggauss points equal the package table to 1e-14 (C10)', '4/C03')
 
+claim('C04', 'reference-model monitor on Panel.calc_kM: entry-wise comparison with the kinetic-energy Hessian by quadrature of the recovered displacement field; conservation (total mass) and invariance (reference surface) relations on real executions',
+      'Every entry of every returned kM is compared with sum_p w_p U(p)^T J U(p) (U = u,v,w,phix,phiy recovered per unit amplitude; J the 5x5 inertia form with first moment mu*h*d and '
+      'second moment mu*h*(d^2+h^2/12)) for all four models, sub-intervals, placement and offsets of both signs; symmetry/PSD/PD; rigid translations of unrestrained panels must carry '
+      'mu*h*area; and the non-rigid spectrum of a free homogeneous plate from the real K(d), M(d) must not move with d.',
+      'sign of the first-moment coupling follows the laminate convention (plies at z=+offset, U=u-z*w,x); the invariance clause is its convention-free witness', '4/C04')
+
 ALL = ['C%02d' % i for i in range(1, 21)]
 PENDING_REASON = 'check not built yet in this round (runtime-monitoring plan in DESIGN.md section 4); will be claimed once its monitor runs silent on the unchanged tree'
 
